@@ -101,6 +101,7 @@ type fnTrans struct {
 	nOb map[string]int
 	tupleVals map[ssa.Value][]Term
 	paramTV map[string]TV
+	userCallback bool
 	resultNames []string
 }
 
@@ -748,14 +749,15 @@ func (f *fnTrans) callMods(c *ssa.CallCommon) []string {
 			addAll(f.w.modHeapsOfContract(pc, f.fn.Signature))
 			break
 		}
-		for _, g := range f.w.FnAll {
-			if g.Parent() != nil && types.Identical(g.Signature, c.Signature()) {
-				addAll(f.w.ModsetOf(g))
-			}
+		fns, user := f.w.FnValueTargets(c.Value)
+		for _, g := range fns {
+			addAll(f.w.ModsetOf(g))
 		}
-		for _, n := range reentryAPI {
-			if g, ok := f.w.Fns[n]; ok {
-				addAll(f.w.ModsetOf(g))
+		if user {
+			for _, n := range reentryAPI {
+				if g, ok := f.w.Fns[n]; ok {
+					addAll(f.w.ModsetOf(g))
+				}
 			}
 		}
 	default:
